@@ -196,6 +196,9 @@ func rtValues(c rtCase) (map[string]any, string, []string) {
 		for i := rng.Intn(5); i > 0; i-- {
 			m = append(m, fmt.Sprintf("%s-%d", rtIDs[rng.Intn(len(rtIDs))], rng.Intn(3)))
 		}
+		if rng.Intn(5) == 0 {
+			m = append(m, "") // the empty id is an id like any other inside a list
+		}
 	}
 	return vals, o, m
 }
@@ -263,6 +266,15 @@ func runRoundTrip(c rtCase) rtEvent {
 			}
 		}
 		all, rd := allFieldsOf(src)
+		if c.Seed%3 != 0 {
+			// "all of its fields": in whatever order the caller lists them
+			rand.New(rand.NewSource(c.Seed)).Shuffle(len(all), func(i, j int) { all[i], all[j] = all[j], all[i] })
+			for _, names := range rd {
+				for i, j := 0, len(names)-1; i < j; i, j = i+1, j-1 {
+					names[i], names[j] = names[j], names[i]
+				}
+			}
+		}
 		var payload []byte
 		var back jsonapi.Resource
 		var err error
@@ -1313,7 +1325,7 @@ func codecOtherModes(mode string, rng *rand.Rand, stt *stats, w *evWriter, n int
 		}
 		shapes := []string{"absent", "nodata", "null", "ident", "list", "badshape", "identbadtype"}
 		for i := 0; i < n; i++ {
-			c := payCase{Fam: "codec", Mode: "partial", Impl: []string{"soft", "wrap"}[i%2], Attrs: map[string]string{}}
+			c := payCase{Fam: "codec", Mode: "partial", Impl: []string{"soft", "wrap", "soft", "wrap2"}[i%4], Attrs: map[string]string{}}
 			// a subset of the attributes: small subsets systematically first, then random
 			for _, f := range attrNames {
 				if rng.Intn(6) == 0 {
